@@ -37,6 +37,29 @@ def run(cmd, cwd=None, env=None, input=None, timeout=None, check=False):
     return p
 
 
+def repo_file_hashes():
+    """sha256 of every non-test Go file and of the committed Lean extraction in the tree under test"""
+    import hashlib
+    out = {}
+    for root, dirs, files in os.walk(REPO):
+        dirs[:] = [d for d in dirs if not d.startswith('.') and not d.startswith('_')]
+        for f in files:
+            if (f.endswith('.go') and not f.endswith('_test.go')) or f in ('go.mod', 'FormalVerification.lean'):
+                path = os.path.join(root, f)
+                out[os.path.relpath(path, REPO)] = hashlib.sha256(open(path, 'rb').read()).hexdigest()
+    return out
+
+
+def changed_files():
+    """files of /repo that differ from the tree the ties were last validated on"""
+    try:
+        base = json.load(open(os.path.join(ROOT, 'baseline', 'repo_files.json')))['files']
+    except Exception:
+        return []
+    cur = repo_file_hashes()
+    return sorted(k for k in set(base) | set(cur) if base.get(k) != cur.get(k))
+
+
 class Ctx:
     def __init__(self, prop, tier, seed):
         self.prop, self.tier, self.seed = prop, tier, seed
@@ -50,13 +73,24 @@ class Ctx:
         self.extra = {}
         self.known_lines = []
         self.scratch = None
+        self.changed = changed_files()
+        if self.changed:
+            self.assumptions.append(f'the tree under test differs from the validated baseline (baseline/repo_files.json) in {len(self.changed)} file(s): {", ".join(self.changed[:8])}; numeric knobs of the quick tier widened fourfold')
 
     @property
     def thorough(self):
         return self.tier == 'thorough'
 
     def pick(self, quick, thorough):
-        return thorough if self.thorough else quick
+        """Effort knob.  On a tree that differs from the one the ties were last validated on
+        (baseline/repo_files.json), the quick tier widens its numeric knobs fourfold (up to the
+        thorough value): a change is when rare inputs matter most."""
+        if self.thorough:
+            return thorough
+        if (self.changed and isinstance(quick, int) and isinstance(thorough, int)
+                and not isinstance(quick, bool) and thorough > quick):
+            return min(thorough, quick * 4)
+        return quick
 
     def scratchdir(self):
         if self.scratch is None:
